@@ -75,13 +75,16 @@ PROPS["C03"] = dict(
         "Zrnt.Proofs.C03.domain_separation",
         "Zrnt.Proofs.C03.domain_separation_no_collision",
         "Zrnt.Proofs.C03.M_total",
-        "Zrnt.Proofs.C03.M_sound_partial",
+        "Zrnt.Proofs.C03.M_sound_pieces",
         "Zrnt.Proofs.C03.sound_of_refines",
         "Zrnt.Proofs.C03.header_sound",
         "Zrnt.Proofs.C03.exit_age_sound",
         "Zrnt.Proofs.C03.deposit_branch_sound",
         "Zrnt.Proofs.C03.payload_sound",
         "Zrnt.Proofs.C03.no_panic_of_refines",
+        "Zrnt.Proofs.C03.M_sound_partial",
+        "Zrnt.Proofs.C03.attestation_reject_sound",
+        "Zrnt.Proofs.C03.slashing_reject_sound",
     ],
     modes=[dict(name="c03", stateful=True, max_shrinks=3, nontrivial=_nontrivial)],
     regen=[],
@@ -95,8 +98,13 @@ PROPS["C03"] = dict(
          "whenever S accepts; a case is non-trivial when the Go side executed the mutant; distinct = distinct (position, line)",
     trusted_base=TB_COMMON + TB_BLOCK,
     assumptions=ASSUME_BLOCK + [
-        "M_sound is proved only in part (M_sound_partial, indexedAttestation_sound, domain_separation, M_total); every other rejection rule rests on "
-        "the correspondence: coverage.rejections_by_first_rule counts, per rule of S, the mutants S rejected by that rule FIRST",
+        "M_sound is proved only in part: M_sound_partial is the block-level statement (every block of the block type that S rejects is rejected by "
+        "ProcessBlock / PostSlotTransition, no panic, no runaway loop) with the premise OpSteps for an invariant — the simulation of every operation kind "
+        "is proved from its M = S theorem (all operation kinds have one since round 3), the preservation of ONE common invariant by every operation is "
+        "proved only for exits, deposits' registry part, BLS changes and slashings; single-operation forms: attestation_reject_sound, "
+        "slashing_reject_sound, header_sound, exit_age_sound, deposit_branch_sound, payload_sound. coverage.rejections_by_first_rule counts, per rule of "
+        "S, the mutants S rejected by that rule FIRST",
+        "block-level hypothesis check_types: the block is a value of the SSZ block type (per-element limits that zrnt enforces when decoding the block)",
         "domain_separation is up to an explicit collision of the hash truncated to the 28 bytes that enter a domain (stated constructively)",
         "a Go panic is reported as the outcome `panic`, which never equals an answer of S",
     ],
